@@ -1,21 +1,29 @@
 import BpModel.All
 import BpProofs.Ops
 import BpProofs.Rt
+import BpProofs.JsonNonEmpty
 /-
   C04, the relation between a message and what `from_dict(to_dict(m))` rebuilds, and the
-  proof that related messages encode to the same bytes.  Nothing in this file mentions JSON:
-  `DEqv` is a relation on message values.
+  proof that related messages encode to the same bytes.  Nothing in this file mentions JSON
+  values: `DEqv` is a relation on message values.
 
     m ≈ m'  (`DEqv S m m'`)  iff  same class, same `_unknown_fields`, same oneof selection,
     `_serialized_on_wire` is True in `m'` (at every nesting level), and slot by slot either
       * `same`  : the values are related (identical leaves; lists and dict values item-wise;
                   sub-messages recursively) — for a singular sub-message only when the
-                  original is *present* (`_serialized_on_wire`, or proto3-optional, or the
-                  selected oneof member), or
+                  original is *kept* (`keptSlot`): it is `_serialized_on_wire`, or
+                  proto3-optional, or the selected oneof member, or (after the D46 repair) it
+                  differs from a fresh `Sub()` although nothing marked it, or
       * `unset` : `m` holds a value that `==` the field's default, is not the selected member
                   of a oneof, is not a proto3-optional field and (for a sub-message) is not
                   `_serialized_on_wire`; `m'` holds PLACEHOLDER, which every read
                   materialises to that default.
+
+  Equal bytes (`deqv_dumpVal`) now needs the value to be TYPED (`wellTyped'`, BpProofs/JsonGuard.lean)
+  and map fields to be singular (part of `fieldJsonOk`): an unmarked sub-message is encoded
+  with `serialize_empty = False`, the rebuilt, marked one with `serialize_empty = True`, and the
+  two agree because a typed sub-message that differs from `Sub()` has a non-empty body
+  (`dumpSlots_nonempty`, BpProofs/JsonNonEmpty.lean).
 -/
 namespace Bp
 open Gen
@@ -30,6 +38,17 @@ def dAtom : Val → Bool
 def presentSlot (f : FieldD) (sel : Bool) : Val → Bool
   | .msg _ _ ow _ _ => ow || f.optional || sel
   | _ => true
+
+/-- a singular sub-message is kept by `to_dict` and by `dump`: it is present, or it differs from
+    the field's default (a fresh `Sub()`) although nothing marked it (`m.a.b.x = 1` leaves `m.a`
+    in that state); every other kind of value is kept when it is stored -/
+def keptSlot (S : Schema) (f : FieldD) (sel : Bool) : Val → Bool
+  | .msg c sl ow unk cur => ow || f.optional || sel || !eqDefault S f.defKind (.msg c sl ow unk cur)
+  | _ => true
+
+theorem keptSlot_of_present (S : Schema) (f : FieldD) (sel : Bool) (v : Val) (h : presentSlot f sel v = true) :
+    keptSlot S f sel v = true := by
+  cases v <;> first | rfl | (simp only [presentSlot] at h; simp only [keptSlot, h, Bool.true_or])
 
 mutual
 inductive DEqv (S : Schema) : Val → Val → Prop
@@ -47,7 +66,7 @@ inductive ListDEqv (S : Schema) : List Val → List Val → Prop
 inductive SlotsDEqv (S : Schema) : List FieldD → List (Option Nat) → Nat → List Val → List Val → Prop
   | nil (fs : List FieldD) (cur : List (Option Nat)) (k : Nat) : SlotsDEqv S fs cur k [] []
   | same (fs : List FieldD) (cur : List (Option Nat)) (k : Nat) (f : FieldD) (v v' : Val) (vs vs' : List Val) :
-      fs[k]? = some f → DEqv S v v' → presentSlot f (selectedInGroup f k cur) v = true →
+      fs[k]? = some f → DEqv S v v' → keptSlot S f (selectedInGroup f k cur) v = true →
       SlotsDEqv S fs cur (k + 1) vs vs' → SlotsDEqv S fs cur k (v :: vs) (v' :: vs')
   | unset (fs : List FieldD) (cur : List (Option Nat)) (k : Nat) (f : FieldD) (v : Val) (vs vs' : List Val) :
       fs[k]? = some f → f.optional = false → selectedInGroup f k cur = false →
@@ -127,21 +146,87 @@ theorem listDEqv_prepPacked (S : Schema) (t : PType) : ∀ (xs ys : List Val), L
       rw [prepPacked, prepPacked, listDEqv_prepPacked S t xs ys' hl,
         prepScalar_msg S t c sl' true unk cur c sl ow unk cur]
 
+theorem frame_se_irrel (num : Nat) (t : PType) (pre : Bytes) (se se' w : Bool) (h : pre ≠ []) :
+    frame num t pre se w = frame num t pre se' w := by
+  cases pre with
+  | nil => exact absurd rfl h
+  | cons x xs => simp [frame]
+
+/-- a kept singular sub-message and its rebuilt, marked counterpart encode to the same record,
+    given that their bodies do -/
+theorem dumpSlot_kept_msg (S : Schema) (hS : ∀ c, ∀ f ∈ fieldsOf S c, fieldJsonOk f = true) (f : FieldD) (sel : Bool)
+    (hsg : sel = true → f.group.isSome = true) (c : Nat) (sl sl' : List Val) (ow : Bool) (unk : Bytes)
+    (cur : List (Option Nat))
+    (hwt : slotOk' S f false sel (.msg c sl ow unk cur) = true)
+    (hp : keptSlot S f sel (.msg c sl ow unk cur) = true)
+    (hbody : dumpSlots S (fieldsOf S c) cur 0 sl' = dumpSlots S (fieldsOf S c) cur 0 sl) :
+    dumpSlot S f false sel (.msg c sl' true unk cur) = dumpSlot S f false sel (.msg c sl ow unk cur) := by
+  rw [dumpSlot, dumpSlot]
+  simp only [Bool.false_eq_true, if_false]
+  rw [hbody]
+  have e1 : (f.group.isSome || f.optional || true || sel) = true := by simp
+  by_cases hpres : (ow || f.optional || sel) = true
+  · have e2 : (f.group.isSome || f.optional || ow || sel) = true := by
+      simp only [Bool.or_eq_true] at hpres ⊢
+      rcases hpres with (hp | hp) | hp
+      · left; right; exact hp
+      · left; left; right; exact hp
+      · right; exact hp
+    have e3 : (ow || (f.group.isSome || f.optional)) = true := by
+      simp only [Bool.or_eq_true] at hpres ⊢
+      rcases hpres with (hp | hp) | hp
+      · left; exact hp
+      · right; right; exact hp
+      · right; left; exact hsg hp
+    simp only [e1, e2, e3, Bool.not_true, Bool.and_false, Bool.false_eq_true, if_false, Bool.true_or]
+  · -- not marked, not optional, not selected: kept because it differs from its default
+    have hpres' : (ow || f.optional || sel) = false := by simpa using hpres
+    simp only [Bool.or_eq_false_iff] at hpres'
+    obtain ⟨⟨how, hopt⟩, hsel⟩ := hpres'
+    subst how
+    have hne : eqDefault S f.defKind (.msg c sl false unk cur) = false := by
+      simp only [keptSlot, hopt, hsel, Bool.or_self, Bool.false_or, Bool.not_eq_true'] at hp
+      exact hp
+    rw [slotOk'] at hwt
+    simp only [Bool.and_eq_true, Bool.not_eq_true', beq_iff_eq, Option.isNone_iff_eq_none] at hwt
+    obtain ⟨⟨⟨⟨⟨⟨⟨⟨_, hty⟩, hw⟩, hr⟩, hk⟩, _⟩, _⟩, _⟩, hsl⟩ := hwt
+    simp only [e1, hne, Bool.not_true, Bool.and_false, Bool.false_and, Bool.false_eq_true, if_false, Bool.true_or,
+      Bool.false_or]
+    cases hb : dumpSlots S (fieldsOf S c) cur 0 sl with
+    | error e => rfl
+    | ok body =>
+      simp only [bind_ok, hty, hw, beq_self_eq_true, Option.isNone_none, Bool.and_self, if_true]
+      have hdk : f.defKind = .msg c := by
+        unfold FieldD.defKind
+        simp [hr, hty, hopt, hw, hk, msgKindDef]
+      rw [hdk, eqDefault] at hne
+      simp only [beq_self_eq_true, Bool.true_and] at hne
+      have hbne : body ≠ [] :=
+        dumpSlots_nonempty S hS (fieldsOf S c) cur (hS c) sl 0 hsl (by simpa using hne) body hb
+      exact frame_se_irrel _ _ _ _ _ _ (app_ne_nil_left _ _ hbne)
+
 mutual
-theorem deqv_dumpSlots (S : Schema) (fs : List FieldD) (cur : List (Option Nat)) :
-    ∀ (vs vs' : List Val) (k : Nat), SlotsDEqv S fs cur k vs vs' → dumpSlots S fs cur k vs' = dumpSlots S fs cur k vs
-  | [], vs', k, h => by cases h; rfl
-  | v :: vs, vs', k, h => by
+theorem deqv_dumpSlots (S : Schema) (hS : ∀ c, ∀ f ∈ fieldsOf S c, fieldJsonOk f = true) (fs : List FieldD)
+    (cur : List (Option Nat)) :
+    ∀ (vs vs' : List Val) (k : Nat), slotsOk' S fs cur k vs = true → SlotsDEqv S fs cur k vs vs' →
+      dumpSlots S fs cur k vs' = dumpSlots S fs cur k vs
+  | [], vs', k, _, h => by cases h; rfl
+  | v :: vs, vs', k, hwt, h => by
+    rw [slotsOk'] at hwt
+    simp only [Bool.and_eq_true] at hwt
     cases h with
     | same _ _ _ f _ v' _ ws hf hv hp hrest =>
+      have h1 := hwt.1
+      rw [hf] at h1
+      simp only at h1
       rw [dumpSlots, dumpSlots]
       simp only [hf]
-      rw [deqv_dumpSlot S f (hidden f k cur) (selectedInGroup f k cur) (selected_group f k cur) v v' hv hp,
-        deqv_dumpSlots S fs cur vs ws (k + 1) hrest]
+      rw [deqv_dumpSlot S hS f (hidden f k cur) (selectedInGroup f k cur) (selected_group f k cur) v v' h1 hv hp,
+        deqv_dumpSlots S hS fs cur vs ws (k + 1) hwt.2 hrest]
     | unset _ _ _ f _ _ ws hf ho hs hd hw hrest =>
       rw [dumpSlots, dumpSlots]
       simp only [hf]
-      rw [deqv_dumpSlots S fs cur vs ws (k + 1) hrest]
+      rw [deqv_dumpSlots S hS fs cur vs ws (k + 1) hwt.2 hrest]
       cases hh : hidden f k cur with
       | true => rw [dumpSlot_hid, dumpSlot_hid]
       | false =>
@@ -150,105 +235,116 @@ theorem deqv_dumpSlots (S : Schema) (fs : List FieldD) (cur : List (Option Nat))
         rw [hs, h1, h2]
 termination_by structural vs => vs
 
-theorem deqv_dumpSlot (S : Schema) (f : FieldD) (hid sel : Bool) (hsg : sel = true → f.group.isSome = true) :
-    ∀ (v v' : Val), DEqv S v v' → presentSlot f sel v = true → dumpSlot S f hid sel v' = dumpSlot S f hid sel v
-  | .msg c sl ow unk cur, v', h, hp => by
+theorem deqv_dumpSlot (S : Schema) (hS : ∀ c, ∀ f ∈ fieldsOf S c, fieldJsonOk f = true) (f : FieldD) (hid sel : Bool)
+    (hsg : sel = true → f.group.isSome = true) :
+    ∀ (v v' : Val), slotOk' S f hid sel v = true → DEqv S v v' → keptSlot S f sel v = true →
+      dumpSlot S f hid sel v' = dumpSlot S f hid sel v
+  | .msg c sl ow unk cur, v', hwt, h, hp => by
     cases h with
     | atom _ ha => rfl
     | msg _ _ sl' _ _ _ hs =>
       cases hid with
       | true => rw [dumpSlot_hid, dumpSlot_hid]
       | false =>
-        simp only [presentSlot] at hp
-        rw [dumpSlot, dumpSlot]
-        simp only [Bool.false_eq_true, if_false]
-        rw [deqv_dumpSlots S (fieldsOf S c) cur sl sl' 0 hs]
-        have e1 : (f.group.isSome || f.optional || true || sel) = true := by simp
-        have e2 : (f.group.isSome || f.optional || ow || sel) = true := by
-          simp only [Bool.or_eq_true] at hp ⊢
-          rcases hp with (hp | hp) | hp
-          · left; right; exact hp
-          · left; left; right; exact hp
-          · right; exact hp
-        have e3 : (ow || (f.group.isSome || f.optional)) = true := by
-          simp only [Bool.or_eq_true] at hp ⊢
-          rcases hp with (hp | hp) | hp
-          · left; exact hp
-          · right; right; exact hp
-          · right; left; exact hsg hp
-        simp only [e1, e2, e3, Bool.not_true, Bool.and_false, Bool.false_eq_true, if_false, Bool.true_or]
-  | .list xs, v', h, _ => by
+        have hsl : slotsOk' S (fieldsOf S c) cur 0 sl = true := by
+          have := hwt
+          rw [slotOk'] at this
+          simp only [Bool.and_eq_true] at this
+          exact this.2
+        exact dumpSlot_kept_msg S hS f sel hsg c sl sl' ow unk cur hwt hp
+          (deqv_dumpSlots S hS (fieldsOf S c) cur sl sl' 0 hsl hs)
+  | .list xs, v', hwt, h, _ => by
     cases h with
     | atom _ ha => rfl
     | list _ ys hl =>
       cases hid with
       | true => rw [dumpSlot_hid, dumpSlot_hid]
       | false =>
+        have hit : itemsOk' S f xs = true := by
+          rw [slotOk'] at hwt
+          simp only [Bool.and_eq_true] at hwt
+          exact hwt.2
         rw [dumpSlot, dumpSlot]
         simp only [Bool.false_eq_true, if_false]
         rw [eqDefault, eqDefault, listDEqv_isEmpty S xs ys hl, listDEqv_prepPacked S f.ty xs ys hl,
-          deqv_dumpItems S f xs ys hl]
-  | .dict ks vs, v', h, _ => by
+          deqv_dumpItems S hS f xs ys hit hl]
+  | .dict ks vs, v', hwt, h, _ => by
     cases h with
     | atom _ ha => rfl
     | dict _ _ vs' hl =>
       cases hid with
       | true => rw [dumpSlot_hid, dumpSlot_hid]
       | false =>
+        have hmv : mapValsOk' S f vs = true := by
+          rw [slotOk'] at hwt
+          simp only [Bool.and_eq_true] at hwt
+          exact hwt.2
         rw [dumpSlot, dumpSlot]
         simp only [Bool.false_eq_true, if_false]
-        rw [eqDefault, eqDefault, deqv_dumpEntries S f vs vs' ks hl]
-  | .ph, v', h, _ | .none, v', h, _ | .int _, v', h, _ | .bool _, v', h, _ | .f32 _, v', h, _ | .f64 _, v', h, _
-  | .str _, v', h, _ | .byt _, v', h, _ | .ts _, v', h, _ | .dur _, v', h, _ => by
+        rw [eqDefault, eqDefault, deqv_dumpEntries S hS f vs vs' ks hmv hl]
+  | .ph, v', _, h, _ | .none, v', _, h, _ | .int _, v', _, h, _ | .bool _, v', _, h, _ | .f32 _, v', _, h, _
+  | .f64 _, v', _, h, _ | .str _, v', _, h, _ | .byt _, v', _, h, _ | .ts _, v', _, h, _ | .dur _, v', _, h, _ => by
     cases h; rfl
 termination_by structural v => v
 
-theorem deqv_dumpItems (S : Schema) (f : FieldD) : ∀ (xs ys : List Val), ListDEqv S xs ys →
-    dumpItems S f ys = dumpItems S f xs
-  | [], ys, h => by cases h; rfl
-  | .msg c sl ow unk cur :: xs, ys, h => by
+theorem deqv_dumpItems (S : Schema) (hS : ∀ c, ∀ f ∈ fieldsOf S c, fieldJsonOk f = true) (f : FieldD) :
+    ∀ (xs ys : List Val), itemsOk' S f xs = true → ListDEqv S xs ys → dumpItems S f ys = dumpItems S f xs
+  | [], ys, _, h => by cases h; rfl
+  | .msg c sl ow unk cur :: xs, ys, hwt, h => by
+    obtain ⟨hrest, hmsg⟩ := itemsOk'_cons S f _ xs hwt
     cases h with
     | consAtom _ _ ys' ha hl => simp [dAtom] at ha
     | consMsg _ _ sl' _ _ _ _ ys' hs hl =>
-      rw [dumpItems, dumpItems, deqv_dumpItems S f xs ys' hl, deqv_dumpSlots S (fieldsOf S c) cur sl sl' 0 hs]
-  | .list _ :: xs, ys, h | .dict _ _ :: xs, ys, h => by
+      rw [dumpItems, dumpItems, deqv_dumpItems S hS f xs ys' hrest hl,
+        deqv_dumpSlots S hS (fieldsOf S c) cur sl sl' 0 (hmsg c sl ow unk cur rfl) hs]
+  | .list _ :: xs, ys, _, h | .dict _ _ :: xs, ys, _, h => by
     cases h with
     | consAtom _ _ ys' ha hl => simp [dAtom] at ha
-  | .ph :: xs, ys, h | .none :: xs, ys, h | .int _ :: xs, ys, h | .bool _ :: xs, ys, h | .f32 _ :: xs, ys, h
-  | .f64 _ :: xs, ys, h | .str _ :: xs, ys, h | .byt _ :: xs, ys, h | .ts _ :: xs, ys, h | .dur _ :: xs, ys, h => by
+  | .ph :: xs, ys, hwt, h | .none :: xs, ys, hwt, h | .int _ :: xs, ys, hwt, h | .bool _ :: xs, ys, hwt, h
+  | .f32 _ :: xs, ys, hwt, h | .f64 _ :: xs, ys, hwt, h | .str _ :: xs, ys, hwt, h | .byt _ :: xs, ys, hwt, h
+  | .ts _ :: xs, ys, hwt, h | .dur _ :: xs, ys, hwt, h => by
     cases h with
     | consAtom _ _ ys' ha hl =>
-      rw [dumpItems, dumpItems, deqv_dumpItems S f xs ys' hl]; all_goals (intros; contradiction)
+      rw [dumpItems, dumpItems, deqv_dumpItems S hS f xs ys' (itemsOk'_cons S f _ xs hwt).1 hl]
+      all_goals (intros; contradiction)
 termination_by structural xs => xs
 
-theorem deqv_dumpEntries (S : Schema) (f : FieldD) : ∀ (vs vs' ks : List Val), ListDEqv S vs vs' →
-    dumpEntries S f ks vs' = dumpEntries S f ks vs
-  | [], vs', ks, h => by cases h; rfl
-  | x :: xs, vs', [], h => by
+theorem deqv_dumpEntries (S : Schema) (hS : ∀ c, ∀ f ∈ fieldsOf S c, fieldJsonOk f = true) (f : FieldD) :
+    ∀ (vs vs' ks : List Val), mapValsOk' S f vs = true → ListDEqv S vs vs' →
+      dumpEntries S f ks vs' = dumpEntries S f ks vs
+  | [], vs', ks, _, h => by cases h; rfl
+  | x :: xs, vs', [], _, h => by
     cases h <;> simp [dumpEntries]
-  | .msg c sl ow unk cur :: xs, vs', k :: ks, h => by
+  | .msg c sl ow unk cur :: xs, vs', k :: ks, hwt, h => by
+    obtain ⟨hrest, hmsg⟩ := mapValsOk'_cons S f _ xs hwt
     cases h with
     | consAtom _ _ ys' ha hl => simp [dAtom] at ha
     | consMsg _ _ sl' _ _ _ _ ys' hs hl =>
-      rw [dumpEntries, dumpEntries, deqv_dumpEntries S f xs ys' ks hl, deqv_dumpSlots S (fieldsOf S c) cur sl sl' 0 hs]
-  | .list _ :: xs, vs', k :: ks, h | .dict _ _ :: xs, vs', k :: ks, h => by
+      rw [dumpEntries, dumpEntries, deqv_dumpEntries S hS f xs ys' ks hrest hl,
+        deqv_dumpSlots S hS (fieldsOf S c) cur sl sl' 0 (hmsg c sl ow unk cur rfl) hs]
+  | .list _ :: xs, vs', k :: ks, _, h | .dict _ _ :: xs, vs', k :: ks, _, h => by
     cases h with
     | consAtom _ _ ys' ha hl => simp [dAtom] at ha
-  | .ph :: xs, vs', k :: ks, h | .none :: xs, vs', k :: ks, h | .int _ :: xs, vs', k :: ks, h
-  | .bool _ :: xs, vs', k :: ks, h | .f32 _ :: xs, vs', k :: ks, h | .f64 _ :: xs, vs', k :: ks, h
-  | .str _ :: xs, vs', k :: ks, h | .byt _ :: xs, vs', k :: ks, h | .ts _ :: xs, vs', k :: ks, h
-  | .dur _ :: xs, vs', k :: ks, h => by
+  | .ph :: xs, vs', k :: ks, hwt, h | .none :: xs, vs', k :: ks, hwt, h | .int _ :: xs, vs', k :: ks, hwt, h
+  | .bool _ :: xs, vs', k :: ks, hwt, h | .f32 _ :: xs, vs', k :: ks, hwt, h | .f64 _ :: xs, vs', k :: ks, hwt, h
+  | .str _ :: xs, vs', k :: ks, hwt, h | .byt _ :: xs, vs', k :: ks, hwt, h | .ts _ :: xs, vs', k :: ks, hwt, h
+  | .dur _ :: xs, vs', k :: ks, hwt, h => by
     cases h with
     | consAtom _ _ ys' ha hl =>
-      rw [dumpEntries, dumpEntries, deqv_dumpEntries S f xs ys' ks hl]; all_goals (intros; contradiction)
+      rw [dumpEntries, dumpEntries, deqv_dumpEntries S hS f xs ys' ks (mapValsOk'_cons S f _ xs hwt).1 hl]
+      all_goals (intros; contradiction)
 termination_by structural vs => vs
 end
 
-/-- **related messages encode to the same bytes** -/
-theorem deqv_dumpVal (S : Schema) (m m' : Val) (h : DEqv S m m') : dumpVal S m' = dumpVal S m := by
+/-- **related messages encode to the same bytes** (for a typed `m`, map fields singular) -/
+theorem deqv_dumpVal (S : Schema) (hS : ∀ c, ∀ f ∈ fieldsOf S c, fieldJsonOk f = true) (m m' : Val)
+    (hwt : wellTyped' S m = true) (h : DEqv S m m') : dumpVal S m' = dumpVal S m := by
   cases h with
   | atom _ _ => rfl
-  | msg c sl sl' ow unk cur hs => rw [dumpVal, dumpVal, deqv_dumpSlots S (fieldsOf S c) cur sl sl' 0 hs]
+  | msg c sl sl' ow unk cur hs =>
+    rw [wellTyped'] at hwt
+    simp only [Bool.and_eq_true] at hwt
+    rw [dumpVal, dumpVal, deqv_dumpSlots S hS (fieldsOf S c) cur sl sl' 0 hwt.2 hs]
   | list xs ys _ => rfl
   | dict ks vs vs' _ => rfl
 
